@@ -86,6 +86,7 @@ class AbstractEval:
         self.field_types = field_types or {}
         self.const_attrs = const_attrs or {}
         self.calls: List[App] = []
+        self.generic_loops = False  # a for loop over a symbolic iterable is run once with a generic element (summaries of "what is done per element")
         self.globals: Dict[str, Any] = {}  # free names -> model values
         self.funcs: Dict[str, Callable] = {}  # modelled builtins (called with evaluated arguments)
         self.cur: List[FuncInfo] = []  # inlining stack (module context for name resolution)
@@ -203,11 +204,17 @@ class AbstractEval:
             base, idx = self.ev(e.value, env), self.ev(e.slice, env)
             if isinstance(base, (tuple, list, dict)) and not isinstance(idx, (Sym, App)):
                 return base[idx]  # IndexError / KeyError propagate to an enclosing abstract `try`
+            if isinstance(idx, int) and not isinstance(idx, bool) and idx >= 0:
+                return App("item", (base, idx))  # the same term tuple unpacking produces
             return App("getitem", (base, idx))
         if isinstance(e, (ast.GeneratorExp, ast.ListComp)):
             return self.comprehension(e, env)
         if isinstance(e, ast.BinOp):
             return App(type(e.op).__name__, (self.ev(e.left, env), self.ev(e.right, env)))
+        if isinstance(e, ast.Yield):
+            v = self.ev(e.value, env) if e.value is not None else None
+            self.calls.append(App("yield", (v,)))
+            return None
         raise AnalysisError(f"dtable: no abstract semantics for expression {ast.unparse(e)!r}")
 
     def comprehension(self, e, env):
@@ -396,6 +403,25 @@ class AbstractEval:
             else:
                 self.block(s.orelse, env)
             self.block(s.finalbody, env)
+        elif isinstance(s, ast.For) and self.generic_loops:
+            it = self.ev(s.iter, env)
+            items = list(it) if isinstance(it, (tuple, list)) else [App("elem", (it,))]
+            self.calls.append(App("for-begin", (it,)))
+            broke = False
+            for x in items:
+                self.assign(s.target, x, env)
+                try:
+                    self.block(s.body, env)
+                except _Return as r:
+                    if r.value == ("continue",):
+                        continue
+                    if r.value == ("break",):
+                        broke = True
+                        break
+                    raise
+            self.calls.append(App("for-end", (it,)))
+            if not broke:
+                self.block(s.orelse, env)
         else:
             raise AnalysisError(f"dtable: no abstract semantics for statement {type(s).__name__} at line {s.lineno}")
 
@@ -432,6 +458,7 @@ def explore(
     funcs: Optional[Dict[str, Callable]] = None,
     type_of: Optional[Dict[str, str]] = None,
     symbolic_cmp: Optional[Callable[[Any, Any], bool]] = None,
+    generic_loops: bool = False,
 ) -> List[Tuple[Dict[Tuple, Any], Tuple, List[App]]]:
     """Enumerate every consistent path of `fn`; returns [(valuation, outcome, calls)]."""
 
@@ -449,6 +476,7 @@ def explore(
         ae.globals = dict(globals_ or {})
         ae.funcs = dict(funcs or {})
         ae.symbolic_cmp = symbolic_cmp
+        ae.generic_loops = generic_loops
         for p_, t_ in (type_of or {}).items():
             ae.type_of[p_] = t_
         if self_type and args and isinstance(args[0], Sym):
